@@ -41,7 +41,7 @@ def expect(tables, s):
         if t is None:
             return False, shown
         sp = spec[(d, t["chan"])]
-        stk = stacks.setdefault((d, t["chan"]), [])
+        stk = stacks.setdefault((p, d, t["chan"]), [])
         if t["action"] == "PUSH":
             if not sp["dup"] and stk and stk[-1] == t["value"]:
                 return False, shown
@@ -56,9 +56,9 @@ def expect(tables, s):
             continue
         else:
             continue
-        shown.append((clk, sp["type"], stk[-1] if stk else 0))
+        shown.append((clk, sp["type"], stk[-1] if stk else 0, p))
     if s.lint:
-        for (d, ch), stk in stacks.items():
+        for (p_, d, ch), stk in stacks.items():
             sp = spec[(d, ch)]
             lintable = sp["stack"] and d not in ("kernel", "ovni") and not (d == "nanos6" and sp["name"] != "subsystem")
             if stk and lintable:
@@ -170,6 +170,37 @@ def run(chk):
             close(s, clk + 10)
             scs.append(s)
     chk.count("depth_limit_cases", 2 * len([1 for k in stackch if len(stackch[k]) >= 2]))
+    # ---- lint with several threads: the open region may be in any thread
+    nl = 0
+    for (d, ch) in sorted(stackch):
+        t = stackch[(d, ch)][0]
+        po = pops[(d, ch, t["value"])]
+        for nth in (2, 3):
+            for opener in range(nth):
+                for lint in (True, False):
+                    s = Scenario()
+                    for m in tables["models"]:
+                        s.versions[m["name"]] = m["version"]
+                    s.enabled = ["ovni"] + ([name[d]] if name[d] != "ovni" else [])
+                    s.looms["la"] = [(0, 0)]
+                    s.lint = lint
+                    clk = 10
+                    for k in range(nth):
+                        s.threads.append({"loom": "la", "pid": 10, "tid": 101 + k})
+                        clk += 1
+                        s.events.append((k, clk, "OHx", i32(0 if k == 0 else -1) + i32(101 + k) + i32(0)))
+                    for k in range(nth):
+                        clk += 1
+                        s.events.append((k, clk, mid[d] + chr(t["c"]) + chr(t["v"]), b""))
+                        if k != opener:
+                            clk += 1
+                            s.events.append((k, clk, mid[d] + chr(po["c"]) + chr(po["v"]), b""))
+                    for k in range(nth):
+                        clk += 1
+                        s.events.append((k, clk, "OHe", b""))
+                    scs.append(s)
+                    nl += 1
+    chk.count("multi_thread_lint_cases", nl)
 
     real = emucore.run_real(build, scs)
     model = emucore.run_oracle(oracle, scs) if oracle else [None] * len(scs)
@@ -188,8 +219,9 @@ def run(chk):
                           {"scenario": desc if len(desc["events"]) < 80 else "long (%d events)" % len(desc["events"])})
         if ok and r["rc"] == 0 and r["rows"] is not None:
             t0 = min(e[1] for e in s.events)
-            for (clk, ty, val) in shown:
-                got = emucore.timeline(r["rows"].get((0, 1, ty), []), clk - t0)
+            g = s.thread_gindex()
+            for (clk, ty, val, p) in shown:
+                got = emucore.timeline(r["rows"].get((0, g[p] + 1, ty), []), clk - t0)
                 if got != val:
                     chk.violation("innermost:" + key, "thread row type %d shows %d at t=%d, the innermost open region is %d" % (ty, got, clk - t0, val),
                                   {"scenario": desc if len(desc["events"]) < 80 else "long"})
